@@ -326,6 +326,9 @@ def run(ck):
                 ck.violation("STABLE-PROPAGATE", q, "front", "%s must call parallel_mergesort_base<%s> with its parameters" % (q, st), fn.loc)
         check_equally_split(ck, tu)
         from rules import c09
+        from rules.parcommon import check_comp_threaded_all
+        nct = check_comp_threaded_all(ck, tu, ("tlx::parallel_mergesort_detail::", "tlx::multiway_merge_detail::", "tlx::parallel_"))
+        ck.require(nct >= 2, "no standard ordering algorithm found below the expected namespaces")
         nt = c09.check_trees_in(ck, tu)
         ck.require(nt >= 4, "the k >= 5 merge of the sorted runs uses loser trees; expected 4 instantiated classes, found %d" % nt)
     m = len(types)
